@@ -51,6 +51,7 @@ func checkC13(c *Ctx, r *Report) {
 	c13DirUse(c, r, vreach)
 	c13Drop(c, r, vreach)
 	c13Locate(c, r)
+	c13NoVerdictCache(c, r)
 	// LOOP / IFACE / UNION by reachability + structure
 	hd := c.fn("(*Directive).hasDirLoop")
 	r.check("C13.LOOP", "directive definition cycles are searched during validation", posFn(hd), hd != nil && vreach[hd], "hasDirLoop is not reachable from Root.validate")
@@ -103,6 +104,7 @@ func checkC13(c *Ctx, r *Report) {
 		r.floor("C13.IFACE", "argument type comparisons in the interface conformance check", nA, 1)
 	}
 	c13SubWrap(c, r, sub)
+	c13IfaceEvery(c, r)
 	uv := c.fn("(*Union).Validate")
 	okU := false
 	if uv != nil {
@@ -961,4 +963,104 @@ func c13SubWrap(c *Ctx, r *Report, sub *ssa.Function) {
 		}
 	}
 	r.floor("C13.SUBWRAP", "two-type calls in the sub-type predicate family", n, 4)
+}
+
+// c13IfaceEvery: "objects providing every interface field": in the conformance check of one interface the
+// comparison is made for every field the interface declares: inside the loop over the interface's fields the
+// call that checks one field is control dependent on nothing but the loop's own test - not on a set of names
+// already seen under another interface (two interfaces may declare one name differently).
+func c13IfaceEvery(c *Ctx, r *Report) {
+	vi := c.fn("(*Object).validateInterface")
+	vf := c.fn("(*Object).validateField")
+	if vi == nil {
+		r.undecided("C13.IFACE", "anchor (*Object).validateInterface", token.NoPos, "not found")
+		return
+	}
+	loops := loopsOf(vi)
+	n := 0
+	for _, ci := range callsIn(vi) {
+		cal := ci.Common().StaticCallee()
+		if cal == nil {
+			continue
+		}
+		isCheck := (vf != nil && cal == vf) || cal.Name() == "get" && recvName(cal) == "fieldList"
+		if !isCheck {
+			continue
+		}
+		l := innermostLoop(loops, ci.Block())
+		if l == nil {
+			continue
+		}
+		n++
+		filter := ""
+		for _, d := range loopControlDeps(l, ci.Block()) {
+			if isRangeCond(d.ifi.Cond) {
+				continue
+			}
+			// the object has no such field: reported instead of compared
+			if v, _, ok := nilCmp(d.ifi.Cond); ok {
+				if gc, ok := v.(*ssa.Call); ok {
+					if g := gc.Call.StaticCallee(); g != nil && g.Name() == "get" && recvName(g) == "fieldList" {
+						continue
+					}
+				}
+			}
+			filter = shortPath(vpath(d.ifi.Cond))
+		}
+		r.check("C13.IFACE", fmt.Sprintf("%s: %s is reached for every field of the interface", fnName(vi), cal.Name()), ci.Pos(), filter == "",
+			"the comparison of an interface field is skipped depending on "+filter+": a field that another interface of the object declares under the same name is then never compared with this interface's declaration")
+	}
+	r.floor("C13.IFACE", "per-field checks in the interface conformance loop", n, 1)
+}
+
+// c13NoVerdictCache: validation decides from the schema as it is now. The functions reachable from
+// Root.validate write nothing into schema nodes except the reviewed idempotent normalisations (a directive
+// argument value / default replaced by its coerced form). A verdict remembered on a node ("this directive is
+// loop free", "this object conforms") is computed from the part of the schema walked at that moment and is
+// consulted when other definitions are validated, or after other definitions arrived.
+func c13NoVerdictCache(c *Ctx, r *Report) {
+	r.rule("C13.NOCACHE", "the write summary of Root.validate contains no location inside a schema node other than the reviewed idempotent normalisations (ArgValue.Value, Arg.Default)")
+	val := c.fn("(*Root).validate")
+	if val == nil {
+		r.undecided("C13.NOCACHE", "anchor (*Root).validate", token.NoPos, "not found")
+		return
+	}
+	idem := map[string]bool{"ArgValue.Value": true, "Arg.Default": true}
+	eng := newEffEngine(c)
+	eng.run(val)
+	s := eng.sums[val]
+	n, bad := 0, 0
+	if s != nil {
+		var keys []string
+		for k := range s.effects {
+			keys = append(keys, k)
+		}
+		sort.Strings(keys)
+		seen := map[string]bool{}
+		for _, k := range keys {
+			ef := s.effects[k]
+			if !writeKinds[ef.kind] {
+				continue
+			}
+			n++
+			owner := ef.owner
+			of := ef.owner + "." + ef.field
+			if owner == "" && ef.elemOf != "" {
+				owner = ef.elemOf[:strings.IndexByte(ef.elemOf+".", '.')]
+				of = ef.elemOf
+			}
+			if !schemaTypes[owner] || isFreshTarget(ef.target) || idem[of] {
+				continue
+			}
+			key := fmt.Sprintf("%s: %s", fnName(ef.fn), ef.descr())
+			if seen[key] {
+				continue
+			}
+			seen[key] = true
+			bad++
+			r.add("C13.NOCACHE", key, ef.pos, Violated, "validation writes into the schema ("+ef.target.String()+"): a verdict or intermediate result kept on a node is consulted later as if it described the whole, current schema - a directive marked loop free while another one was being checked hides its own cycle")
+		}
+	}
+	r.check("C13.NOCACHE", fnName(val)+": validation leaves no verdict on schema nodes", val.Pos(), bad == 0, fmt.Sprintf("%d write(s) into schema nodes among %d summarised writes", bad, n))
+	r.floor("C13.NOCACHE", "functions summarised below Root.validate", len(eng.sums), 20)
 }
